@@ -10,7 +10,9 @@ Import ListNotations.
 Close Scope Q_scope.
 Open Scope R_scope.
 
-(** what the traced sat / tsat compute over R, range tests included (any coefficients) *)
+(** what the traced sat / tsat compute over R, range tests included (any coefficients);
+    [tsat_upper_Q] is the constant tsat compares its argument with, read off the traced DAG
+    (pcritical in the source as it stands) *)
 Theorem sat_over_R : forall (n : nat -> R) (t : R) (r : rres),
   runsR sat_traced [t] n r <->
   (0 <= t <= Q2R tcritical_Q /\ r = RRet [sat_val n (t + Q2R tc_k_Q)]) \/
@@ -20,8 +22,8 @@ Print Assumptions sat_over_R.
 
 Theorem tsat_over_R : forall (n : nat -> R) (p : R) (r : rres),
   runsR tsat_traced [p] n r <->
-  (Q2R p_611_213_Q <= p <= Q2R pcritical_Q /\ r = RRet [tsat_val n p]) \/
-  (~ (Q2R p_611_213_Q <= p <= Q2R pcritical_Q) /\ r = RNone).
+  (Q2R p_611_213_Q <= p <= Q2R tsat_upper_Q /\ r = RRet [tsat_val n p]) \/
+  (~ (Q2R p_611_213_Q <= p <= Q2R tsat_upper_Q) /\ r = RNone).
 Proof. exact tsat_traced_is. Qed.
 Print Assumptions tsat_over_R.
 
